@@ -8,7 +8,7 @@
 (*                                                                         *)
 (* A connection is [peer, hdr, src, kind]:                                 *)
 (*   peer  the TCP peer (load balancer) it comes through: p1 | p2          *)
-(*   hdr   PROXY header sent: none | v1 | v2 | invalid | garbage           *)
+(*   hdr   PROXY header sent: none | v1 | v2 | v2dgram | invalid | garbage *)
 (*         | v1unknown | v2local (valid, announcing no address)            *)
 (*   src   the source address announced in the header: ipA | ipA2 (same IP *)
 (*         as ipA, other port) | ipB | ip6 | ip6c (IPv6, low 32 bits as   *)
@@ -21,16 +21,20 @@ EXTENDS Integers, Sequences, FiniteSets, TLC
 (* The statement does not say whom such a connection is attributed to; two readings satisfy it: "peer" -- it is the balancer's own  *)
 (* connection, attributed to the TCP peer and charged to the peer's budget (what the code does) -- and "invalid" -- closed unserved  *)
 (* like a missing header.  Serving it WITHOUT asking the limiter is neither.                                                         *)
+(* hdr = v2dgram is a valid version 2 header that announces an address but names the transport DGRAM (on a TCP connection): under the  *)
+(* lenient reading ("peer") the announced source counts like in any other header, under the strict one ("invalid") the connection    *)
+(* is closed unserved.  Serving it on the budget of the balancer is neither: the header does announce a source address.              *)
 Readings == {"peer", "invalid"}
 \* the IP (without port) behind an address label
 IpOf(l) == CASE l \in {"ipA", "ipA2"} -> "A" [] l = "ipB" -> "B" [] l = "ip6" -> "6" [] l = "ip6c" -> "6c" [] l = "p1" -> "P1" [] l = "p2" -> "P2" [] OTHER -> l
 HeaderOk(proxy, hdr) == \/ (hdr \in {"v1", "v1unknown"} /\ proxy \in {"v1", "both"})
-                        \/ (hdr \in {"v2", "v2local"} /\ proxy \in {"v2", "both"})
+                        \/ (hdr \in {"v2", "v2local", "v2dgram"} /\ proxy \in {"v2", "both"})
 Addressless(hdr) == hdr \in {"v1unknown", "v2local"}
 \* the address the connection is attributed to: announced source with PROXY protocol on, TCP peer otherwise; "bad" = no valid header
 EffLabelR(proxy, c, rd) == IF proxy = "off" THEN c.peer
                            ELSE IF ~HeaderOk(proxy, c.hdr) THEN "bad"
                            ELSE IF Addressless(c.hdr) THEN (IF rd = "peer" THEN c.peer ELSE "bad")
+                           ELSE IF c.hdr = "v2dgram" THEN (IF rd = "peer" THEN c.src ELSE "bad")
                            ELSE c.src
 EffLabel(proxy, c) == EffLabelR(proxy, c, "peer")
 
